@@ -156,8 +156,7 @@ func checkC11(r *core.Run) {
 		key := core.Key("T-consume", c.fn, c.list)
 		ok := false
 		for _, l := range cfgx.Loops(fn) {
-			iff := cfgx.IfOf(l.Header)
-			if iff == nil || !strings.Contains(res.Of(iff.Cond).String(), "."+c.list+")") {
+			if !rangesField(r, fn, l, c.list) {
 				continue
 			}
 			hb := map[*ssa.BasicBlock]bool{}
@@ -239,7 +238,51 @@ func checkC11(r *core.Run) {
 			r.Violate("T-lifetime", key, r.P.FuncPos(fn), "Renew can persist a shard's renewal without extending the data model's lifetime: the model is deleted at the old end height although paid shards remain")
 		}
 	}
+	rulePaidEnd(r)
 	ruleSchedMeta(r)
+}
+
+// rulePaidEnd: renewed periods run one after another: wherever a shard's paid end is computed by ranging over
+// its RenewInfos and adding Duration, every element is added (no conditional skip) — the computations in Renew
+// and ResetMetaDuration must agree with the one-by-one rotation in HandleExpiredShard.
+func rulePaidEnd(r *core.Run) {
+	n := 0
+	for _, f := range r.P.SortedFuncs(r.ConsensusFuncs()) {
+		if r.P.IsGenerated(f) {
+			continue
+		}
+		res := r.Resolver(f)
+		for _, l := range cfgx.Loops(f) {
+			if !rangesField(r, f, l, "RenewInfos") {
+				continue
+			}
+			// blocks adding elem.Duration
+			add := map[*ssa.BasicBlock]bool{}
+			for b := range l.Body {
+				for _, ins := range b.Instrs {
+					if bo, ok := ins.(*ssa.BinOp); ok && bo.Op.String() == "+" {
+						t := res.Of(bo).String()
+						if strings.Contains(t, ".RenewInfos).Duration") {
+							add[b] = true
+						}
+					}
+				}
+			}
+			if len(add) == 0 {
+				continue // a loop over RenewInfos that does not compute an end height (e.g. pledge maximum)
+			}
+			n++
+			key := core.Key("T-paid-end", r.P.Name(f), fmt.Sprintf("sum over RenewInfos#%d", n))
+			if cutsAllCycles(l, add) {
+				r.Discharge("T-paid-end", key, r.P.Pos(lastPos(l.Header)), "every queued renewal's Duration is added to the shard's paid end")
+			} else {
+				r.Violate("T-paid-end", key, r.P.Pos(lastPos(l.Header)), r.P.Name(f)+" computes a shard's paid end from its RenewInfos but skips some of them: renewed periods run one after another, so the end height (and with it the data model's lifetime) comes out too early")
+			}
+		}
+	}
+	// every consensus function that reads RenewInfos to derive a height must use such a loop: a helper that takes
+	// the renew info of one order only is reported through its caller's loop above; floor keeps the rule alive
+	r.Floor("paid_end_computations", n, 2)
 }
 
 // evalArgFirst: like evalArgAll but only requires the first call site (getter then used for the loop).
@@ -252,6 +295,7 @@ func evalArgFirst(r *core.Run, id, fnName, callee string, idx int, allowed []str
 func checkC12(r *core.Run) {
 	r.Explanation = "C12 (structural clauses only): hand-over implies a scheduled re-examination — in Store, Ready and the timeout handler every success path after providers have been selected for waiting shards passes SetTimeoutOrderBlock for that order (path-sensitive in the isProvider flag); every exit of the timeout handler is either rescheduled or classified by a dominating fact the statement allows (order gone, pending => cancelled, end-of-life cut-off, nothing waiting, give-up after MaxTries => cancelled or replica-reduced); the 'nothing waiting' branch moves no coins and removes only shards that are not completed; the end-blocker hands every listed order to the handler. Eventual completion and the ten-interval bound as arithmetic are not decided."
 	r.Rule("T-timeout: provider selection feeding waiting shards => SetTimeoutOrderBlock(order, …) before every success exit")
+	r.Rule("T-timeout-height: the height handed to SetTimeoutOrderBlock is current height + timeout, or CreatedAt + timeout only where the order was created in the same transaction (NewOrder on every path before)")
 	r.Rule("T-exits: every return of HandleTimeoutOrder passed SetTimeoutOrderBlock or is dominated by an allowed classification")
 	r.Rule("T-nowait: the timeoutCount == 0 branch has no bank effect and its RemoveShard loop ranges over a list fed only under shard.Status != Completed")
 	r.Assume(aDeps)
@@ -267,7 +311,7 @@ func checkC12(r *core.Run) {
 			continue
 		}
 		ck := &guard.Checker{P: r.P, Fn: fn, Res: r.Resolver(fn)}
-		resp := blocksCalling(r, fn, fSetTimeout)
+		resp := blocksCallingDeep(r, fn, fSetTimeout, 0)
 		succ := map[*ssa.BasicBlock]bool{}
 		for _, b := range fn.Blocks {
 			if isReturnBlock(b) && successReturnIn(r, fn, b) {
@@ -290,6 +334,8 @@ func checkC12(r *core.Run) {
 		// the order scheduled is the one handed over
 		evalArgAll(r, "T-timeout", s.fn, fSetTimeout, 0, []string{"*"}, "order scheduled for re-examination")
 	}
+
+	ruleTimeoutHeight(r)
 
 	// ---- exits of the timeout handler
 	hto := "sao/keeper.Keeper.HandleTimeoutOrder"
@@ -392,8 +438,7 @@ func checkC12(r *core.Run) {
 		res := r.Resolver(fn)
 		ok := false
 		for _, l := range cfgx.Loops(fn) {
-			iff := cfgx.IfOf(l.Header)
-			if iff == nil || !strings.Contains(res.Of(iff.Cond).String(), ".OrderList)") {
+			if !rangesField(r, fn, l, "OrderList") {
 				continue
 			}
 			hb := map[*ssa.BasicBlock]bool{}
@@ -599,6 +644,186 @@ func checkC13(r *core.Run) {
 	}
 	ruleSchedShard(r)
 	ruleSchedMeta(r)
+	rulePartition(r)
+}
+
+// rulePartition: where an order's shard list is overwritten with a filtered list while the rest is removed, every
+// shard of the order must land in the kept list or in the removed list.
+func rulePartition(r *core.Run) {
+	fnName := "sao/keeper.Keeper.HandleTimeoutOrder"
+	fn := r.Func("T-partition", fnName)
+	if fn == nil {
+		return
+	}
+	res := r.Resolver(fn)
+	// the kept list: value stored to Order.Shards that is not an append to it
+	var kept []ssa.Value
+	for _, b := range fn.Blocks {
+		for _, ins := range b.Instrs {
+			if st, ok := ins.(*ssa.Store); ok && fieldPath(st.Addr) == "order/types.Order.Shards" {
+				if _, isPhi := st.Val.(*ssa.Phi); isPhi {
+					kept = append(kept, st.Val)
+				}
+			}
+		}
+	}
+	// the removed list: slices ranged over by loops that call RemoveShard(elem)
+	var removed []ssa.Value
+	for _, l := range cfgx.Loops(fn) {
+		has := false
+		for b := range l.Body {
+			for _, ins := range b.Instrs {
+				if c, ok := ins.(ssa.CallInstruction); ok {
+					if n, _ := res.CalleeName(c.Common()); n == fRemoveShard {
+						has = true
+					}
+				}
+			}
+		}
+		if !has {
+			continue
+		}
+		if iff := cfgx.IfOf(l.Header); iff != nil {
+			if bo, ok := iff.Cond.(*ssa.BinOp); ok {
+				if lc, ok := bo.Y.(*ssa.Call); ok && len(lc.Call.Args) == 1 {
+					if _, isPhi := lc.Call.Args[0].(*ssa.Phi); isPhi {
+						removed = append(removed, lc.Call.Args[0])
+					}
+				}
+			}
+		}
+	}
+	key := core.Key("T-partition", fnName, "every shard is kept or removed")
+	if len(kept) == 0 || len(removed) == 0 {
+		r.Undecide("T-partition", key, r.P.FuncPos(fn), fmt.Sprintf("kept/removed lists not identified (%d, %d)", len(kept), len(removed)))
+		return
+	}
+	app := map[*ssa.BasicBlock]bool{}
+	for _, v := range append(append([]ssa.Value{}, kept...), removed...) {
+		for x := range phiWeb(v) {
+			if c, ok := x.(*ssa.Call); ok {
+				if bi, ok := c.Call.Value.(*ssa.Builtin); ok && bi.Name() == "append" {
+					app[c.Block()] = true
+				}
+			}
+		}
+	}
+	// the classification loop: the range over order.Shards containing those appends
+	for _, l := range cfgx.Loops(fn) {
+		if !rangesField(r, fn, l, "Shards") {
+			continue
+		}
+		inside := false
+		for b := range app {
+			if l.Body[b] {
+				inside = true
+			}
+		}
+		if !inside {
+			continue
+		}
+		skip := map[cfgx.Edge]bool{}
+		for b := range l.Body {
+			if i2 := cfgx.IfOf(b); i2 != nil {
+				if ex, ok := i2.Cond.(*ssa.Extract); ok && ex.Index == 1 {
+					skip[cfgx.Edge{From: b, To: b.Succs[1]}] = true
+				}
+			}
+		}
+		seen := map[*ssa.BasicBlock]bool{}
+		st := []*ssa.BasicBlock{}
+		for _, s := range l.Header.Succs {
+			if l.Body[s] {
+				st = append(st, s)
+			}
+		}
+		cyc := false
+		for len(st) > 0 {
+			b := st[len(st)-1]
+			st = st[:len(st)-1]
+			if b == l.Header {
+				cyc = true
+				break
+			}
+			if seen[b] || app[b] {
+				continue
+			}
+			seen[b] = true
+			for _, s := range b.Succs {
+				if l.Body[s] && !skip[cfgx.Edge{From: b, To: s}] {
+					st = append(st, s)
+				}
+			}
+		}
+		if cyc {
+			r.Violate("T-partition", key, r.P.Pos(lastPos(l.Header)), "the timeout handler overwrites order.Shards with the completed shards and removes the collected uncompleted ones, but some shard of the order is put in neither list: it stays in the store, names the order, and the order no longer lists it")
+		} else {
+			r.Discharge("T-partition", key, r.P.Pos(lastPos(l.Header)), "every found shard of the order is appended to the kept (completed) or to the removed (uncompleted) list")
+		}
+		return
+	}
+	r.Undecide("T-partition", key, r.P.FuncPos(fn), "classification loop over order.Shards not found")
+}
+
+// ruleTimeoutHeight: see checkC12.
+func ruleTimeoutHeight(r *core.Run) {
+	n := 0
+	var check func(f *ssa.Function, depth int) (bool, string)
+	createdHere := func(f *ssa.Function, call ssa.CallInstruction) bool {
+		nb := blocksCalling(r, f, "order/keeper.Keeper.NewOrder")
+		if len(nb) == 0 {
+			return false
+		}
+		return nb[call.Block()] || forwardAvoid(f.Blocks[0], nb, nil, func(b *ssa.BasicBlock) bool { return b == call.Block() }) == nil
+	}
+	check = func(f *ssa.Function, depth int) (bool, string) { return false, "" }
+	_ = check
+	for _, f := range r.P.SortedFuncs(r.ConsensusFuncs()) {
+		res := r.Resolver(f)
+		for i, c := range callsIn(r, f, fSetTimeout) {
+			t := callTerm(res, c)
+			if t == nil || len(t.Args) != 2 {
+				continue
+			}
+			n++
+			key := core.Key("T-timeout-height", r.P.Name(f), fmt.Sprintf("SetTimeoutOrderBlock#%d height", i+1))
+			h := normT(t.Args[1].String())
+			switch {
+			case strings.HasPrefix(h, "(uint64(sdk.Context.BlockHeight()) + ") && strings.Contains(h, ".Timeout)"):
+				r.Discharge("T-timeout-height", key, r.P.Pos(c.Pos()), "scheduled at current height + timeout")
+			case strings.Contains(h, ".CreatedAt + ") && strings.Contains(h, ".Timeout)"):
+				// only where the order was created in this very transaction
+				ok := createdHere(f, c)
+				if !ok {
+					// a helper: every consensus call site must have created the order before
+					ok = true
+					sites := 0
+					for _, caller := range r.P.CG.In[f] {
+						if !r.ConsensusFuncs()[caller] {
+							continue
+						}
+						for _, cs := range callsIn(r, caller, r.P.Name(f)) {
+							sites++
+							if !createdHere(caller, cs) {
+								ok = false
+							}
+						}
+					}
+					if sites == 0 {
+						ok = false
+					}
+				}
+				if ok {
+					r.Discharge("T-timeout-height", key, r.P.Pos(c.Pos()), "scheduled at CreatedAt + timeout of an order created in the same transaction (CreatedAt is the current height)")
+				} else {
+					r.Violate("T-timeout-height", key, r.P.Pos(c.Pos()), "the timeout check is scheduled at order.CreatedAt + Timeout for an order that was not created in this transaction: when the hand-over happens later than one timeout after creation the height is already past and the order is never examined")
+				}
+			default:
+				r.Violate("T-timeout-height", key, r.P.Pos(c.Pos()), "the height handed to SetTimeoutOrderBlock ("+shorten(h)+") is neither current height + timeout nor CreatedAt + timeout of a freshly created order")
+			}
+		}
+	}
+	r.Floor("settimeout_sites", n, 3)
 }
 
 // callersPersist: every consensus caller of f (a helper that appends to its order parameter) calls SetOrder on
